@@ -215,20 +215,22 @@ impl LogWriter for MultiWriter {
     }
 
     fn flush(&self) -> std::io::Result<()> {
+        // every output is flushed, also if another one fails; the first error is returned
+        let mut result = Ok(());
         if let Some(ref writer) = self.o_file_writer {
-            writer.flush()?;
+            result = result.and(writer.flush());
         }
         if let Some(ref writer) = self.o_other_writer {
-            writer.flush()?;
+            result = result.and(writer.flush());
         }
 
         if !matches!(self.duplication_to_stderr(), Duplicate::None) {
-            std::io::stderr().flush()?;
+            result = result.and(std::io::stderr().flush());
         }
         if !matches!(self.duplication_to_stdout(), Duplicate::None) {
-            std::io::stdout().flush()?;
+            result = result.and(std::io::stdout().flush());
         }
-        Ok(())
+        result
     }
 
     fn shutdown(&self) {
